@@ -277,6 +277,9 @@ def tri_prop(J):
 class Tol:
     def __init__(self, x64, tol_inv=1e-7):
         self.x64 = x64
+        # rounding multiplier: 1e5 in float64 (2e-11 relative); float32 has no such head-room - 5e2 (6e-5 relative,
+        # the repository's own tests use 1e-4 absolute)
+        self.K = K if x64 else 5e2
         self.eps = 2.220446049250313e-16 if x64 else 1.1920929e-07
         self.floor = 1e-9 if x64 else 1e-4
         self.gate = 1e-3 if x64 else 1e-2
@@ -294,7 +297,7 @@ class Tol:
         # when |y| and |J| are small through cancellation); E_g likewise for the inverse evaluated at y
         E_f = 1 + ny + nx * (1 + nJ)
         E_g = 1 + nx + ny * (1 + nJi)
-        t = K * self.eps * (nJi * E_f + E_g) + self.floor * (1 + nx)
+        t = self.K * self.eps * (nJi * E_f + E_g) + self.floor * (1 + nx)
         if numeric_amp is not None:
             t = t + 10 * self.tol_inv * numeric_amp + 4 * self.spacing(nx) * numeric_amp
         ill = ~(t <= self.gate * (1 + nx))
@@ -302,13 +305,13 @@ class Tol:
 
     def forward(self, nJ, nx, ny, numeric_amp=None):
         """Two executions of the same forward map (differently fused)."""
-        t = K * self.eps * (1 + ny + nx * (1 + nJ)) + self.floor * (1 + ny) * 1e-3
+        t = self.K * self.eps * (1 + ny + nx * (1 + nJ)) + self.floor * (1 + ny) * 1e-3
         if numeric_amp is not None:
             t = t + 10 * self.tol_inv * numeric_amp + 4 * self.spacing(ny) * numeric_amp
         return t
 
     def logdet(self, ref, n, nJ, nJi):
-        oracle = K * self.eps * n * nJi * (1 + nJ)
+        oracle = self.K * self.eps * n * nJi * (1 + nJ)
         t = self.ldfloor * (1 + np.abs(ref)) + oracle
         ill = ~(oracle <= 1e-3)
         return t, ill
